@@ -54,6 +54,9 @@ def alphabet(w):
     ]
 
 
+_CLOSERS = []
+
+
 def make_storages(kind, sched):
     """returns (list of storage objects: one per worker, observer)"""
     common.use_repo()
@@ -63,6 +66,34 @@ def make_storages(kind, sched):
         s = InMemoryStorage()
         ts.patch_locks(sched, s)
         return [s, s, s], s
+    if kind == "cached_rdb_threads":       # threads of one process share one _CachedStorage over SQLite
+        import os
+        import shutil
+        import tempfile
+
+        from optuna.storages import RDBStorage
+        from optuna.storages._cached_storage import _CachedStorage
+
+        wd = tempfile.mkdtemp(prefix="c03c-", dir=os.environ.get("VERIF_SCRATCH_BASE", "/var/tmp"))
+        first = sd.fresh_rdb(wd, wd)
+        first.remove_session()
+        first.engine.dispose()
+        inner = RDBStorage(f"sqlite:///{wd}/db.sqlite3", engine_kwargs={"connect_args": {"timeout": 0}},
+                           skip_compatibility_check=True, skip_table_creation=True)
+        s = _CachedStorage(inner)
+        ts.patch_locks(sched, s)
+        obs = RDBStorage(f"sqlite:///{wd}/db.sqlite3", skip_compatibility_check=True, skip_table_creation=True)
+
+        def close():
+            for x in (inner, obs):
+                try:
+                    x.remove_session()
+                    x.engine.dispose()
+                except Exception:
+                    pass
+            shutil.rmtree(wd, ignore_errors=True)
+        _CLOSERS.append(close)
+        return [s, s, s], obs
     from .c06 import _backends
 
     ListBackend, _ = _backends()
@@ -159,7 +190,12 @@ def execute(kind, programs, choose_factory, sched=None, group=None):
             continue
         ret, raw = res
         ev.append({"e": "start", "w": w, "op": fix_op(op, t_of_raw), "ret": project(obs, op, ret, raw, s_of_raw, t_of_raw)})
+    for e in ev:       # SQLite `database is locked` surfaces as StorageInternalError: the reply Busy (no effect)
+        if e["e"] == "start" and e["ret"]["k"] == "err" and str(e["ret"]["v"]).startswith("Unexpected:StorageInternalError"):
+            e["ret"] = {"k": "err", "v": "Busy"}
     ev.append({"e": "final", "w": 0, "post": obs.post()})
+    while _CLOSERS:
+        _CLOSERS.pop()()
     return {"workers": [0, 1, 2, 3][: len(programs) + 1], "ev": ev, "choices": sched.choices, "deadlock": int(info["deadlock"]),
             "lines": [w.lines for w in sched.workers]}
 
@@ -288,10 +324,26 @@ def judge(ctx, traces, label):
     v = tlc.validate("LinStorage", "LinStorage", [{"tid": t["tid"], "workers": t["workers"], "ev": t["ev"]} for t in traces],
                      shards=16, timeout=2400)
     ctx.validated(v, label)
+    from . import rdb_sched as _rs
+
+    torn = _rs.classify_torn_reads(ctx, [traces[tid - 1] for tid in v.rejected
+                                         if traces[tid - 1]["replay"].get("kind") == "cached_rdb_threads"
+                                         and not _rs.concurrent_cas(traces[tid - 1])])
     for tid in sorted(v.rejected):
         t = traces[tid - 1]
         i = v.rejected[tid]["reached"]
         calls = [f"w{e['w']}:{e['op']['a']}->{json.dumps(e['ret'])[:80]}" for e in t["ev"] if e["e"] == "start" and e["w"] > 0]
+        if id(t) in torn:
+            ctx.known_finding(ctx.match_known(_rs.K13_SIG), f"threads of one process on SQLite, e.g. {calls}")
+            continue
+        if t["replay"].get("kind") == "cached_rdb_threads":
+            # threads of one process use separate SQLite connections: the recorded finding K1 applies to them as well
+            from . import rdb_sched
+
+            f = ctx.match_known(rdb_sched.K1_SIG) if rdb_sched.concurrent_cas(t) else None
+            if f is not None:
+                ctx.known_finding(f, f"threads of one process on SQLite, e.g. {calls}")
+                continue
         ctx.violation(f"{t['replay'].get('kind')}: no linearization explains the history {calls} "
                       f"(stuck at event #{i}; deadlock={t['deadlock']})",
                       {"replay": t["replay"], "choices": t["choices"], "events": t["ev"]})
@@ -300,7 +352,7 @@ def judge(ctx, traces, label):
     return v
 
 
-KINDS = ["inmemory", "journal_threads", "journal_procs"]
+KINDS = ["inmemory", "journal_threads", "journal_procs", "cached_rdb_threads"]
 
 
 def run(ctx):
@@ -309,19 +361,27 @@ def run(ctx):
                 "(sampled lines in quick), (2) seeded random schedules of 2-3 workers x 1-2 calls; each history of call "
                 "starts/ends + the final read-back state is validated by TLC against LinStorage (search over linearization "
                 "points); SQLite connections interleaved per SQL statement are in the rdb part; distinct = distinct histories")
+    r = tlc.require_model("InMemLock", "InMemLock_q", must_cover=["CStart", "CReadId", "CBumpId", "CReadLen", "CAppend", "SStart",
+                                                                  "SRead", "SWrite"], timeout=600)
+    ctx.model(r, "InMemLock (methods are critical sections of one lock)")
+    r = tlc.expect_violation("InMemLock", "InMemLock_neg", None, timeout=600)
+    ctx.model(r, f"InMemLock_neg (lock removed: expected to violate a corollary; violated {r.violated})")
+    r = tlc.expect_violation("WaitQueue", "WaitQueue_sqlite", "ClaimedAtMostOnce", timeout=600)
+    ctx.model(r, "WaitQueue_sqlite (SQLite compare-and-set split in SELECT and UPDATE: recorded finding K1 is reachable)")
     n_al = len(alphabet(1))
     tasks = []
     for kind in KINDS:
         for ia in range(n_al):
             for ib in range(n_al):
-                if ctx.quick and (ia * 7 + ib * 3 + ctx.seed) % 4 != 0:
+                if ctx.quick and (ia * 7 + ib * 3 + ctx.seed) % (8 if kind == "cached_rdb_threads" else 4) != 0:
                     continue
                 tasks.append((kind, ia, ib, "sample" if ctx.quick else "all"))
     traces = []
     with cf.ProcessPoolExecutor(max_workers=16) as ex:
         for res in ex.map(_pair_task, tasks, chunksize=4):
             traces += res
-        rtasks = [(kind, ctx.seed * 1000 + i, 40 if ctx.quick else 400) for kind in KINDS for i in range(4)]
+        rtasks = [(kind, ctx.seed * 1000 + i, (12 if kind == "cached_rdb_threads" else 40) if ctx.quick else 400)
+                  for kind in KINDS for i in range(4)]
         for res in ex.map(_random_task, rtasks):
             traces += res
     ctx.notes["executions"] = len(traces)
